@@ -863,6 +863,19 @@ class History:
 
 def run_case(run, model, case):
     """replay a stored self-contained case"""
+    if case.get('generate'):
+        # scenarios too large to store as bytes (2 x 1000 headers) are regenerated from their own fixed seed
+        import random as _random
+        g, r = case['generate'], _random.Random(case.get('seed', 0))
+        if g == 'checkpoint_restart':
+            return gen_checkpoint_restart(run, model, r, case['variant'], case['cut'])
+        if g == 'checkpoints':
+            return gen_checkpoints(run, model, r, two=case['two'])
+        if g == 'ledger_notifications':
+            return gen_ledger_notifications(run, model, case['seed'], case.get('shape', 'fork-then-old-tip'))
+        if g == 'builtin_checkpoints':
+            return check_builtin_table(run)
+        raise ValueError(g)
     if case.get('schedule'):
         return run_schedule(run, model, case['cfg'], case['schedule'])
     file = None if case.get('file') is None else bytes.fromhex(case['file'])
@@ -1427,6 +1440,185 @@ def gen_tip_damage(run, model, rng, box=None):
     return reopen_cases(run, model, cfg, files, 'tip-damage')
 
 
+def check_builtin_table(run):
+    """the BUILT-IN checkpoint table (lbry/wallet/checkpoints.py) and a fresh store opened with it: zero filler must never
+    pass for a downloaded chunk, so no entry may be the hash of an all-zero (or empty, or shorter all-zero) chunk, and a
+    fresh Headers(':memory:') has to report every checkpointed chunk as missing and no header of it as present"""
+    import random as _random
+    from lbry.wallet.checkpoints import HASHES
+    case = {'generate': 'builtin_checkpoints'}
+    run.case(case)
+    run.count('builtin-checkpoints', len(HASHES))
+    bad = None
+    zero_hashes = {hexlify(dsha(bytes(HS * k))[::-1]).decode(): k for k in (0, 1, 999, CHUNK, CHUNK + 1)}
+    keys = sorted(HASHES)
+    if keys != list(range(0, len(keys) * CHUNK, CHUNK)):
+        bad = 'the built-in checkpoint heights are not 0, 1000, 2000, ... without a gap'
+    for h in keys:
+        v = HASHES[h]
+        if bad:
+            break
+        if not (isinstance(v, str) and len(v) == 64 and v == v.lower() and all(ch in '0123456789abcdef' for ch in v)):
+            bad = f'built-in checkpoint {h} is not a 64-digit lower-case hex hash'
+        elif v in zero_hashes:
+            bad = (f'built-in checkpoint {h} is the hash of {zero_hashes[v]} all-zero headers: the zero filler of a chunk '
+                   f'that was never downloaded would count as the checkpointed chunk')
+    if bad is None and len(set(HASHES.values())) != len(HASHES):
+        bad = 'two built-in checkpoints carry the same hash'
+    if bad is None:
+        loop = asyncio.new_event_loop()
+        try:
+            hd = Headers(':memory:')
+            loop.run_until_complete(hd.open())
+            missing = set(hd.known_missing_checkpointed_chunks)
+            present = [h for h in keys if h not in missing]
+            sample = _random.Random(7).sample(keys, 12) + [keys[0], keys[-1]]
+            if present:
+                bad = (f'fresh store with the built-in table: chunk {present[0]} counts as present although nothing was '
+                       f'downloaded ({len(present)} such chunks)')
+            elif len(hd) != keys[-1] + CHUNK:
+                bad = f'fresh store with the built-in table has len {len(hd)}'
+            else:
+                for h in sample:
+                    if hd.has_header(h + 500):
+                        bad = f'fresh store with the built-in table: has_header({h + 500}) is True'
+                        break
+        finally:
+            loop.close()
+    if bad:
+        run.violation(case, bad, signature={'site': 'lbry/wallet/checkpoints.py', 'what': bad[:60]})
+        return False
+    return True
+
+
+def gen_ledger_notifications(run, model, seed, shape='fork-then-old-tip'):
+    """the REAL Ledger.receive_header / update_headers on top of the real Headers (fake network underneath): while an
+    on-demand download of a checkpointed chunk is in flight (it holds Headers.check_chunk_lock), two header
+    notifications arrive -- one replaces the tip, one extends the old tip (or: two for the next height, or a
+    fork below and the next height). Whatever the order of arrival, the outcome has to be that of the two connect()
+    calls one after the other, and the stored chain has to validate."""
+    import random as _random
+    from lbry.wallet.ledger import Ledger
+    from lbry.wallet.database import Database
+    rng = _random.Random(seed)
+    case = {'generate': 'ledger_notifications', 'seed': seed, 'shape': shape}
+    run.case(case)
+    run.count('ledger-notifications:' + shape)
+    chain = linked_chain(rng, 2 * CHUNK)
+    good = [b''.join(chain[:CHUNK]), b''.join(chain[CHUNK:])]
+    cfg = {'max_target': (1 << 255) - 1, 'genesis': dsha(chain[0]).hex(), 'vd': True,
+           'checkpoints': [[0, dsha(good[0]).hex()], [CHUNK, dsha(good[1]).hex()]]}
+    miner = Miner(rng, cfg)
+    try:
+        top = miner.extend(chain[-2:], rng.randrange(3, 7))[2:]
+        full = chain + top
+        n = len(full)
+        if shape == 'fork-then-old-tip':
+            first = (n - 1, miner.extend(full[:-1], 1)[-1:])          # replaces the tip (locked path)
+            second = (n, miner.extend(full, 1)[-1:])                  # extends the OLD tip (next height)
+        elif shape == 'two-for-next-height':
+            first = (n, miner.extend(full, 1)[-1:])
+            second = (n, miner.extend(full, 1)[-1:])
+        else:                                                        # 'deeper-fork-then-next'
+            first = (n - 2, miner.extend(full[:-2], 2)[-2:])
+            second = (n, miner.extend(full, 1)[-1:])
+    except TooHard:
+        run.count('skipped:target-too-hard')
+        return True
+
+    class FakeStream:
+        def listen(self, *a, **k):
+            return None
+
+    class FakeNetwork:
+        def __init__(self):
+            self.on_header, self.on_status, self.requests = FakeStream(), FakeStream(), []
+
+        async def retriable_call(self, fn, *a, **k):
+            return await fn(*a, **k)
+
+        async def get_headers(self, height, count=10000, b64=False):
+            self.requests.append(height)
+            return {'hex': '', 'base64': ''}
+
+    cls = make_class(cfg)
+
+    loop = asyncio.new_event_loop()
+    out = {}
+
+    async def scenario():
+        hd = cls(':memory:')
+        ledger = Ledger({'db': Database(':memory:'), 'headers': hd, 'network': FakeNetwork()})
+        hd.checkpoints = cls.checkpoints      # Ledger.__init__ installs the main-net table; this store has its own
+        await hd.open()
+        waiting = {}
+
+        async def getter(start):
+            fut = waiting.get(start)
+            if fut is not None:
+                await fut
+            co = zlib.compressobj(wbits=-15)
+            data = good[start // CHUNK]
+            return {'base64': base64.b64encode(co.compress(data) + co.flush()).decode()}
+        hd.chunk_getter = getter
+        await hd.ensure_chunk_at(CHUNK + 999)
+        for i, raw in enumerate(top):
+            await ledger.receive_header([{'height': 2 * CHUNK + i, 'hex': raw.hex()}])
+        out['synced'] = len(hd)
+        # the download of chunk 0 is in flight
+        waiting[0] = loop.create_future()
+        t1 = loop.create_task(hd.get(rng.randrange(CHUNK)))
+        for _ in range(3):
+            await asyncio.sleep(0)
+        t2 = loop.create_task(ledger.receive_header([{'height': first[0], 'hex': b''.join(first[1]).hex()}]))
+        for _ in range(3):
+            await asyncio.sleep(0)
+        t3 = loop.create_task(ledger.receive_header([{'height': second[0], 'hex': b''.join(second[1]).hex()}]))
+        for _ in range(5):
+            await asyncio.sleep(0)
+        waiting[0].set_result(True)
+        res = await asyncio.gather(t1, t2, t3, return_exceptions=True)
+        out['errors'] = [type(r).__name__ for r in res if isinstance(r, Exception)]
+        out['size'] = len(hd)
+        out['io'] = hd.io.getvalue()
+        out['missing'] = sorted(hd.known_missing_checkpointed_chunks)
+    try:
+        loop.run_until_complete(scenario())
+    finally:
+        loop.close()
+    size, buf = out['size'], out['io']
+    bad = None
+    if out['synced'] != n:
+        bad = f'the {len(top)} tip notifications delivered one by one left len(headers) = {out["synced"]}, expected {n}'
+    elif out['errors']:
+        bad = f'a header notification / lookup raised {out["errors"]}'
+    elif size * HS > len(buf):
+        bad = f'len(headers) = {size} exceeds the store'
+    else:
+        inv = ref_first_invalid(cfg, chain[-2:], split(buf[2 * CHUNK * HS:size * HS]))
+        if buf[:2 * CHUNK * HS] != good[0] + good[1]:
+            bad = 'the checkpointed chunks are not what the server delivered'
+        elif inv is not None:
+            bad = (f'two header notifications ({shape}: heights {first[0]} and {second[0]}) delivered while a chunk '
+                   f'download was in flight left {size} headers whose chain breaks rule {inv[1]} at height '
+                   f'{2 * CHUNK + inv[0]}')
+    if bad:
+        run.violation(case, bad, signature={'generate': 'ledger_notifications', 'seed': seed, 'shape': shape})
+        return False
+    # model: the same calls as atomic steps one after the other
+    lk = lambda hgt, chunk: {'op': 'lookup', 'via': 'get_raw_header', 'height': hgt, 'chunk': chunk.hex(), 'io': False}
+    ops = [{'op': 'open', 'io': False}, lk(CHUNK + 999, good[1])]
+    ops += [{'op': 'connect', 'start': 2 * CHUNK + i, 'batch': raw.hex(), 'io': False} for i, raw in enumerate(top)]
+    ops += [lk(5, good[0]),
+            {'op': 'connect_pair', 'io': True,
+             'a': {'start': first[0], 'batch': b''.join(first[1]).hex()},
+             'b': {'start': second[0], 'batch': b''.join(second[1]).hex()}}]
+    mod = model.call('run', cfg=cfg, file=None, ops=ops)[-1]
+    return run.compare('C07.ledger_notifications', case,
+                       {'size': size, 'io': buf.hex(), 'missing': out['missing']},
+                       {'size': mod['size'], 'io': mod['io'], 'missing': mod['missing']})
+
+
 RESTART_VARIANTS = ['hole-low', 'both', 'damaged-low', 'hole-high', 'none-fetched']
 CUT_CLASSES = ['tip-flip', 'mid-last', 'last-byte', 'first-byte-of-last', 'mid-tip', 'in-chunk1', 'in-chunk0', 'tiny', 'aligned-tip',
                'aligned-2000', 'aligned-1500', 'no-cut', 'appended-junk']
@@ -1664,8 +1856,18 @@ def check_codec(run, model, rng):
     run.case(case)
     run.count('codec:deserialize' + ('' if impl else '-short'))
     bad = None
-    if d is not None and len(raw) == HS and Headers.serialize(d) != raw:
-        bad = 'serialize(deserialize(raw)) != raw'
+    if d is not None and len(raw) == HS:
+        want = {'version': int.from_bytes(raw[0:4], 'little'), 'timestamp': int.from_bytes(raw[100:104], 'little'),
+                'bits': int.from_bytes(raw[104:108], 'little'), 'nonce': int.from_bytes(raw[108:112], 'little')}
+        got = {k: d[k] for k in want}
+        try:
+            back = Headers.serialize(d)
+        except struct.error as e:
+            back = 'struct.error: %s' % e
+        if got != want:
+            bad = f'deserialize reads {got} where the header holds the unsigned little-endian fields {want}'
+        elif back != raw:
+            bad = f'serialize(deserialize(raw)) != raw ({back if isinstance(back, str) else "different bytes"})'
     if bad:
         run.violation(case, bad, signature=case)
     else:
@@ -1775,7 +1977,7 @@ def main(run):
         'sits at the target its bits encode (+-1), between that and the exact retarget value, at the exact value (+-1), inside / at the top of / just past the band that rounds to the same compact bits '
         '(PoW hash replaced for exactly those headers on both sides; one such header pre-mined with the real hash is in '
         'the corpus); two built-in checkpoints with the higher / lower / both / no chunk fetched or a lower header damaged, '
-        'the last header overwritten in each field (aligned / misaligned files, and above two checkpoints); two connect() calls in flight at once on one store (300 headers and a short fork below / a continuation above); two and three stores with the same checkpoints alive in one process; a valid fork that leaves the chain shorter / of equal length / longer (or the same headers again) followed by a clean close / reopen in stores below the 999-header '
+        'the built-in checkpoint table itself and a fresh store opened with it; the real Ledger.receive_header with a fake network delivering two header notifications while an on-demand chunk download holds the chunk lock; the last header overwritten in each field (aligned / misaligned files, and above two checkpoints); two connect() calls in flight at once on one store (300 headers and a short fork below / a continuation above); two and three stores with the same checkpoints alive in one process; a valid fork that leaves the chain shorter / of equal length / longer (or the same headers again) followed by a clean close / reopen in stores below the 999-header '
         'horizon, above it and with a checkpoint; every class of crash cut (misaligned in the last header, the tip, either chunk; aligned; appended junk), then '
         'restart, has_header, lookups and re-connect of the tip; in every fetch / lookup scenario for a checkpointed range '
         'also replies of another length (genuine chunk + 1 / 3 / 1000 headers, + a partial header, + zeros, doubled, '
@@ -1786,15 +1988,7 @@ def main(run):
     for path in sorted(glob.glob(os.path.join(CORPUS, '*.json'))):
         with open(path) as f:
             case = json.load(f)
-        if case.get('generate') == 'checkpoint_restart':
-            # scenario too large to store as bytes (2 x 1000 headers): regenerated from its own fixed seed
-            import random as _random
-            gen_checkpoint_restart(run, model, _random.Random(case['seed']), case['variant'], case['cut'])
-        elif case.get('generate') == 'checkpoints':
-            import random as _random
-            gen_checkpoints(run, model, _random.Random(case['seed']), two=case['two'])
-        else:
-            run_case(run, model, case)
+        run_case(run, model, case)
         run.count('corpus')
 
     # ---- pure functions
@@ -1908,6 +2102,12 @@ def main(run):
     # ---- damaged tip
     for _ in range(vlib.scaled(T, 6, 100)):
         gen_tip_damage(run, model, rng)
+
+    # ---- the built-in table; the real Ledger delivering notifications while a chunk download is in flight
+    check_builtin_table(run)
+    for i in range(vlib.scaled(T, 3, 30)):
+        gen_ledger_notifications(run, model, rng.getrandbits(32),
+                                 ['fork-then-old-tip', 'two-for-next-height', 'deeper-fork-then-next'][i % 3])
 
     # ---- overlapping calls and several stores in one process
     for _ in range(vlib.scaled(T, 1, 8)):
